@@ -183,7 +183,7 @@ def lnd_case(arg):
 
 
 def run(ctx):
-    proof = core.prove(MODULES, leanchecker=ctx.thorough)
+    proof = core.prove(MODULES, extra_targets=["AdaptiveProofs.Examples.L1D"], leanchecker=ctx.thorough)
     n = ctx.n(240, 4000)
     args1 = [(ctx.rng.randrange(1 << 30), i % 5 != 0) for i in range(n)]
     args2 = [(ctx.rng.randrange(1 << 30), i % 5 != 0) for i in range(n // 4)]
